@@ -1485,6 +1485,7 @@ def run(chk, tier):
     chk.guard('C01.p', lambda: rule_void_values(chk, prog, tier))
     from props import c05, c07
     chk.guard('C05.c', lambda: c05.rule_binary_types(chk, prog, tier))     # operand conversions / result types the lowering relies on
+    chk.guard('C05.o', lambda: c05.rule_promote_expr(chk, prog, tier))     # a promoted operand is the operand converted, never a sub-expression of it
     chk.guard('C07.c', lambda: c07.rule_funcinit(chk, prog, tier))         # automatic initialisation
     from props import c15
     chk.guard('C15.f', lambda: c15.rule_case_conversion(chk, prog, tier))  # the case a value reaches: constants converted to the promoted controlling type
